@@ -1,0 +1,10 @@
+//go:build verif
+
+package templates
+
+// ResetModelNamesForVerif clears the process-global ToGoModelName registry so the verification
+// harness (/verif, property C17) can replay allocation sequences from an empty registry.
+func ResetModelNamesForVerif() { resetModelNames() }
+
+// KeywordsForVerif exports the keyword list consulted by sanitizeKeywords.
+func KeywordsForVerif() []string { return append([]string(nil), keywords...) }
